@@ -191,8 +191,13 @@ def c09(ctx):
 
 @handler("C19")
 def c19(ctx):
+    def after(ctx, files):
+        # design level: the doubly linked list as a pointer graph with its first node stored by value; every edit
+        # refines List.tla and keeps the back pointers; Unshift as it was before 49e0e86 breaks them
+        ctx.model_check("DListPtrMC", "DListPtrMC%s.cfg" % ("_deep" if ctx.tier == "thorough" else ""), workers=8, xmx="10g")
+        ctx.model_check("DListPtrMC", "DListPtrMC_kf.cfg", expect_violation="Links")
     return seq_container(ctx, "list", "ListTrace", [("ListMC", "ListMC.cfg")],
-                         depth=dict(quick=4, thorough=5), shards=12)
+                         depth=dict(quick=4, thorough=5), shards=12, after=after)
 
 
 def star_helpers(ctx, driver, trace_module, laws=None, shards=12):
